@@ -270,7 +270,13 @@ int main(int argc, char** argv)
 {
     if (argc < 2)
         return 2;
-    for_each_case(argv[1], [](int k, const std::vector<std::string>& t) {
+    // optional second argument: first case number to run (the engine restarts
+    // the harness behind a case that aborted it, e.g. under UBSan)
+    const int first_case = argc > 2 ? std::atoi(argv[2]) : 0;
+    for_each_case(argv[1], [first_case](int k, const std::vector<std::string>& t) {
+        if (k < first_case)
+            return;
+        std::fflush(stdout);
         auto i = [&](size_t j) { return std::stoi(t.at(j)); };
         auto d = [&](size_t j) { return std::stod(t.at(j)); };
         const std::string& c = t[0];
